@@ -635,7 +635,7 @@ def forced_run(pf, ops, plan, shared=None, timeout=30.0, root=None, opcodes=Fals
     def body(tid):
         try:
             sch.wait_turn(tid)
-            sys.settrace(make_tracer(prefix, lambda frame: sch.on_line(tid, wrote), opcodes))
+            sys.settrace(make_tracer(prefix, lambda frame: sch.on_line(tid, wrote), opcodes[tid] if isinstance(opcodes, (list, tuple)) else opcodes))
             try:
                 res[tid] = run_op_safe(pf, ops[tid], shared)
             finally:
